@@ -22,6 +22,7 @@ rng = ck.rng
 ALPHA = "00616280ff"
 ALPHA_BYTES = [0x00, 0x61, 0x62, 0x80, 0xFF]
 PARTS = 3                       # harness processes (the enumeration is split by haystack index)
+FLAGS17 = ["-std=c++17", "-O1", "-g", "-fsanitize=address,undefined", "-fno-sanitize-recover=all", "-fno-omit-frame-pointer"]
 FLAGS = ["-std=c++20", "-O1", "-g", "-fsanitize=address,undefined", "-fno-sanitize-recover=all",
          "-fno-omit-frame-pointer"]
 
@@ -163,11 +164,18 @@ for k, ls in enumerate(parts_lines):
 
 # the C++ harness is compiled while Coq re-checks the theorems (independent; the OCaml driver build shares coq/ with the proof
 # build and therefore stays sequential with it)
-with ThreadPoolExecutor(max_workers=2) as _ex:
+# A second binary is compiled as C++17 (the overload sets and #if __cplusplus paths most users of tlx get; std::string_view has no
+# starts_with/ends_with there, the harness uses the standard's "equivalent to" definitions for the reference side); it runs the
+# small stack-use-after-return part.
+with ThreadPoolExecutor(max_workers=3) as _ex:
     _fexe = _ex.submit(ck.build_cpp, "c18_harness", ["harness/C18/sv_harness.cpp"], FLAGS)
+    _fexe17 = _ex.submit(ck.build_cpp, "c18_harness17", ["harness/C18/sv_harness.cpp"], FLAGS17)
     pr = ck.prove()
     drv, dlog = ck.ocaml_driver("C18")
     exe, log = _fexe.result()
+    exe17, log17 = _fexe17.result()
+    if exe is not None and exe17 is None:
+        exe, log = None, "the C++17 build of the harness failed:\n" + log17
 
 found = False
 stats = {"blocks_G": 0, "huge_blocks_unavailable": 0, "blocks_H": 0, "blocks_P": 0, "blocks_C": 0, "blocks_M": 0, "blocks_A": 0, "blocks_with_nullptr_view": 0,
@@ -225,7 +233,7 @@ else:
     order = sorted(range(len(casefiles)), key=lambda k: k != usar_part)          # start the slow small part first
     jobs = [(exe, k) for k in order] + [(drv, k) for k in order]
     with ThreadPoolExecutor(max_workers=4) as ex:
-        rs = list(ex.map(lambda j: verif.sh([j[0], casefiles[j[1]]], timeout=TMO,
+        rs = list(ex.map(lambda j: verif.sh([exe17 if (j[0] is exe and j[1] == usar_part) else j[0], casefiles[j[1]]], timeout=TMO,
                                              env=(env_usar if j[1] == usar_part or ck.replay else env_bulk)), jobs))
     results = [None] * (2 * len(casefiles))
     for (tool, k), r in zip(jobs, rs):
@@ -350,6 +358,10 @@ ck.finish({
             "query looks at), not on a 2^32-element list. Complete enumeration: " + enum_desc +
             "; then the corpus of defect witnesses, default-constructed views against all operands of length <= 2, a sweep over all 256 byte "
             "values, and VERIF_SEED-dependent random strings of length 5..12 and 13..40 (needles cut out of the haystack, aliasing ranges). "
+            "Beyond the queries, every H/M block runs every constructor (std::string const& / &&, const char*, (ptr,len), pointer pair, "
+            "string iterators, std::string_view and back, nullptr, copy, assignment), all eight iterator accessors, explicit operator std::string, "
+            "clear(), remove_prefix/suffix(n > size()) (tlx clamps; reference = std with min(n, size())), operator<< without width, and every "
+            "P block swap() and std::hash consistency with ==. "
             "Every block also uses positions/counts 2^32, 2^32+1 and npos-1; every count argument (substr, copy, compare(pos1,n1,..) for needles "
             "of length <= 1, compare(pos1,n1,x,pos2,n2)) runs over 0..len+2 and npos-d for d = 0..len+3 (pos + n wraps for d <= pos); "
             "(ptr,pos,n) overloads over every n <= |needle|; returned / modified views are compared by size(), data() offset and bytes. "
@@ -366,6 +378,8 @@ ck.finish({
     "calls whose behaviour std::string_view leaves undefined are not made: operator[] / front / back out of range, remove_prefix/suffix(n > size()), copy() into a destination overlapping the view",
     "throwing calls of compare(pos1,n1,...) are enumerated with n1 in {0, npos} only (the count is irrelevant once pos1 > size())",
     "extraction: ExtrOcamlBasic only; N/Z/list stay Coq inductives",
+    "the small part is run by a second binary compiled with -std=c++17 (reference starts_with/ends_with = the standard's 'equivalent to' text); the bulk with -std=c++20",
+    "not compared: max_size() (tlx returns size(), documented difference), operator<< under a non-zero stream width (tlx ignores width/fill/adjustfield and does not reset the width: reported to the coordinator as a finding, see docs/audit/C18.md), the value of std::hash",
     "ASan detect_stack_use_after_return=1 only for one small part (corpus, nullptr views, huge sizes, enum |hay|<=2, aliasing |buf|<=2, a sample "
     "of the random cases: every kind of block); the bulk enumeration runs with it off because it makes this harness ~10x slower",
     "huge-size blocks: the driver passes (size, window bytes) to the extracted model instead of the whole byte list, justified by the proved "
